@@ -80,8 +80,10 @@ class ifthenelse(Command):
     def prec(self, tok: Union[Token, number]) -> int:
         """Return the operator precedence for the given token"""
         if tok in ['>', '<', '=']:
+            return 3
+        if isinstance(tok, (_not, NOT)):
             return 2
-        if isinstance(tok, (_and, AND, _or, OR, _not, NOT)):
+        if isinstance(tok, (_and, AND, _or, OR)):
             return 1
         return 0
 
@@ -114,8 +116,11 @@ class ifthenelse(Command):
                     postfix.append(stack.pop())
                 stack.pop()  # (
             else:
-                # Handle operators and precedence
-                while stack and self.prec(tok) <= self.prec(stack[-1]):
+                # Handle operators and precedence.  \not is a prefix
+                # operator: it applies to the operand that follows, so it
+                # never completes an operation that is still pending.
+                while not isinstance(tok, (_not, NOT)) and \
+                      stack and self.prec(tok) <= self.prec(stack[-1]):
                     postfix.append(stack.pop())
                 stack.append(tok)
         while stack:
